@@ -1263,8 +1263,26 @@ def run_world_case(case):
     rnd = model.random
     with warnings.catch_warnings(record=True) as wl:
         warnings.simplefilter("always")
-        gcls = OrthogonalMooreGrid if case["moore"] else OrthogonalVonNeumannGrid
-        space = gcls((case["cw"], case["ch"]), torus=case["ctorus"], random=rnd if case["space_seeded"] else None)
+        ck = case.get("ckind") or ("moore" if case["moore"] else "vonneumann")
+        srnd = rnd if case["space_seeded"] else None
+        if ck == "hex":
+            from mesa.discrete_space import HexGrid
+
+            space = HexGrid((case["cw"], case["ch"]), torus=False, random=srnd)
+        elif ck == "network":
+            import networkx as _nx0
+
+            from mesa.discrete_space import Network
+
+            space = Network(_nx0.convert_node_labels_to_integers(_nx0.grid_2d_graph(case["cw"], case["ch"])), random=srnd)
+        elif ck == "voronoi":
+            from mesa.discrete_space import VoronoiGrid
+
+            pts = [[0, 0], [10, 1], [3, 9], [12, 11], [6, 5], [1, 20], [15, 3], [8, 16], [20, 20]][:max(3, case["cw"] * case["ch"])]
+            space = VoronoiGrid(pts, random=srnd)
+        else:
+            gcls = OrthogonalMooreGrid if ck == "moore" else OrthogonalVonNeumannGrid
+            space = gcls((case["cw"], case["ch"]), torus=case["ctorus"], random=srnd)
         if not case["space_seeded"] and not any("Random number generator not specified" in str(w.message) for w in wl):
             fail("C01/DiscreteSpace/silently-unseeded", -1, "a Grid built with random=None issued no UserWarning")
     space._try_random = False
@@ -1947,7 +1965,7 @@ def _gen_world(rng, big=False):
               if j < len(cells)] if rng.random() < 0.85 else []
     case = {"kind": "world", "seed": rng.randrange(10**6), "agents": agents, "space_seeded": rng.random() < 0.8, "cw": cw, "ch": ch,
             "ctorus": rng.random() < 0.5, "moore": rng.random() < 0.5, "cell_of": cell_of, "lw": lw, "lh": lh, "lplace": lplace,
-            "salt": rng.randrange(1000), "ops": [],
+            "salt": rng.randrange(1000), "ops": [], "ckind": rng.choice([None, None, None, "hex", "network", "voronoi"]),
             "xspaces": [rng.choice(["multi", "hexsingle", "hexmulti", "network", "cont_legacy", "cont_exp", "cont_exp", "cont_exp_unseeded"])
                         for _ in range(rng.randint(0, 3))]}
     nid = n
@@ -2107,6 +2125,13 @@ def enumerate_cases(tier, broken=False):
     cterms = [["call"], ["cempties"], ["cnbhd", 0, True], ["cnbhd", 1, False]]
     cterms += [x for t in list(cterms) for x in (["cselect", t, True, None], ["cselect", t, False, 1], ["cselect", t, False, None],
                                                   ["cnew", t, True], ["cnew", t, False])]
+    for ck in ("hex", "network", "voronoi"):
+        for seeded in (True, False):
+            yield {"kind": "world", "seed": 6, "agents": [[0, 1], [1, 1], [0, 2]], "space_seeded": seeded, "cw": 2, "ch": 2, "ctorus": False,
+                   "moore": True, "ckind": ck, "cell_of": [[1, 0], [2, 0], [3, 3]], "lw": 1, "lh": 1, "lplace": [], "salt": 3,
+                   "ops": [["derivec", t] for t in cterms] + [["derive", ["space_agents"]], ["derive", ["shuffle", ["space_agents"]]], ["sre"], ["tre"],
+                                                              ["rcell", ["cnbhd", 0, True]], ["ragent", ["call"]], ["rcell", ["cempties"]],
+                                                              ["shuffle_do", ["space_agents"]], ["reset", False], ["derivec", ["cnbhd", 3, False]]]}
     for seeded in (True, False):
         for occupied in (True, False):
             ops = [["derive", t] for t in terms] + [["derivec", t] for t in cterms]
@@ -2148,8 +2173,8 @@ def enumerate_cases(tier, broken=False):
                                    ["oneof", 2, [list(c) for c in cells], False], ["mte", 2], ["mte", 1], ["oneof", 2, [list(c) for c in cells], True]]}
 
 
-RULE = ("world histories = one mesa.Model(seed) with <= 7 agents of two classes, a 1..3 x 1..3 cell grid built with or without "
-        "model.random, a legacy SingleGrid (1..3 x 1..3, every 8th 6..7 x 6..7 so that the rejection branch of move_to_empty "
+RULE = ("world histories = one mesa.Model(seed) with <= 7 agents of two classes, a 1..3 x 1..3 cell space (orthogonal Moore / von Neumann, "
+        "HexGrid, Network or VoronoiGrid) built with or without model.random, a legacy SingleGrid (1..3 x 1..3, every 8th 6..7 x 6..7 so that the rejection branch of move_to_empty "
         "runs) whose _empties set iterates in a salted random order, and 3-12 operations: derivation terms of depth <= 4 over "
         "select/shuffle/sort/groupby/copy/AgentSet()/space.agents/grid.agents, cell-collection terms, create_agents, remove, "
         "place, remove_agent, up to three further spaces (MultiGrid, HexSingle/HexMultiGrid, NetworkGrid, legacy and experimental "
